@@ -663,15 +663,46 @@ pub fn c09_clone_resume(s: &State) -> Vec<Failure> {
                         let rest_clone: Vec<_> = pull(c, $fuel).0;
                         let rest_orig: Vec<_> = pull(it, $fuel).0;
                         if rest_clone != rest_orig || rest_orig[..] != full[k.min(full.len())..] {
-                            bad = Some((k, format!("{:?}", rest_clone), format!("{:?}", rest_orig)));
+                            bad = Some((k, format!("clone yields {:?}", rest_clone), format!("{:?}", rest_orig)));
+                            break;
+                        }
+                        // the provided methods a type may override agree with repeated next()
+                        let rest = &full[k.min(full.len())..];
+                        let mk_at = |k: usize| {
+                            let mut it = $mk;
+                            for _ in 0..k {
+                                it.next();
+                            }
+                            it
+                        };
+                        if mk_at(k).last() != rest.last().cloned() {
+                            bad = Some((k, format!("last() = {:?}", mk_at(k).last()), format!("{:?}", rest)));
+                            break;
+                        }
+                        if mk_at(k).count() != rest.len() {
+                            bad = Some((k, format!("count() = {}", mk_at(k).count()), format!("{:?}", rest)));
+                            break;
+                        }
+                        for jx in 0..=rest.len() {
+                            if mk_at(k).nth(jx) != rest.get(jx).cloned() {
+                                bad = Some((k, format!("nth({jx}) = {:?}", mk_at(k).nth(jx)), format!("{:?}", rest)));
+                                break;
+                            }
+                        }
+                        let (lo, hi) = mk_at(k).size_hint();
+                        if lo > rest.len() || hi.map(|h| h < rest.len()).unwrap_or(false) {
+                            bad = Some((k, format!("size_hint() = ({lo}, {hi:?})"), format!("{:?}", rest)));
+                            break;
+                        }
+                        if bad.is_some() {
                             break;
                         }
                     }
                     bad
                 });
                 if let Ok(Some((k, c, o))) = r {
-                    out.push(fail(C09, "traversal", false, $name, class, "clone-does-not-resume",
-                        format!("{}({}) cloned after {} elements: the clone yields {}, the original goes on with {}", $name, x + 1, k, c, o)));
+                    out.push(fail(C09, "traversal", false, $name, class, if c.starts_with("clone") { "clone-does-not-resume" } else { "provided-method-disagrees-with-next" },
+                        format!("{}({}) after {} elements: {}, but the rest of the sequence is {}", $name, x + 1, k, c, o)));
                 }
             }};
         }
@@ -825,6 +856,14 @@ pub fn c11(s: &State) -> Vec<Failure> {
                 };
                 if p_mut != Some(p_idx) || p_idx != p_idxm || p_idx != &clone.as_slice()[x] as *const _ {
                     push("identity-mut", class, format!("get_mut/IndexMut/Index disagree on the node of {}", fmt_id(Some(id))));
+                }
+                // Display gives the position under any format spec (padding aside)
+                for (spec, txt) in [("{:.0}", format!("{:.0}", id)), ("{:.1}", format!("{:.1}", id)), ("{:>4}", format!("{:>4}", id)),
+                    ("{:<3.1}", format!("{:<3.1}", id)), ("{:#}", format!("{:#}", id)), ("{:04}", format!("{:04}", id))] {
+                    let t = txt.trim().trim_start_matches('0');
+                    if t != (x + 1).to_string() {
+                        push("conversions", class, format!("Display of the id in slot {} under {spec} gives {txt:?}", x + 1));
+                    }
                 }
                 if usize::from(id) != x + 1 || NonZeroUsize::from(id).get() != x + 1 || id.to_string() != (x + 1).to_string() {
                     push("conversions", class, format!("usize/NonZeroUsize/Display of the id in slot {} give {} / {} / {}", x + 1, usize::from(id), NonZeroUsize::from(id), id));
@@ -1006,6 +1045,15 @@ pub fn c13(s: &State, cfg: &JudgeCfg, product_steps: &mut u64) -> Vec<Failure> {
             format!("after clear(): count={} is_empty={} =={} capacity {}->{} debug={:?}", cl.count(), cl.is_empty(), cl == fresh, cap_before, cl.capacity(), cl)));
     }
     let _ = cap0;
+    // ... also when the arena has room to spare at the time of the clear
+    let mut roomy = a.clone();
+    roomy.reserve(5);
+    let cap_roomy = roomy.capacity();
+    roomy.clear();
+    if roomy.capacity() != cap_roomy {
+        out.push(fail(C13, "clear", false, "clear", "-", "clear-does-not-keep-capacity",
+            format!("clear() of an arena with count {} and capacity {} leaves capacity {}", a.count(), cap_roomy, roomy.capacity())));
+    }
     // original untouched by what happened to the clone
     if obs::debug_hash(a) != obs::debug_hash(&s.arena) {
         unreachable!();
@@ -1064,6 +1112,20 @@ pub fn c16_roundtrip(s: &State) -> Result<Arena<Payload>, Failure> {
     if b != *a || format!("{:?}", b) != format!("{:?}", a) {
         return Err(fail(C16, "serde", false, "roundtrip", "-", "copy-differs",
             format!("round-tripped arena differs: original {:?}, copy {:?}", a, b)));
+    }
+    // non-borrowing entry points of the same format: through serde_json::Value and through a reader
+    let via_value: Result<Arena<Payload>, String> = serde_json::to_value(a)
+        .map_err(|e| e.to_string())
+        .and_then(|v| serde_json::from_value(v).map_err(|e| e.to_string()));
+    let via_reader: Result<Arena<Payload>, String> = serde_json::from_reader(js.as_bytes()).map_err(|e| e.to_string());
+    for (how, r) in [("to_value/from_value", via_value), ("from_reader", via_reader)] {
+        match r {
+            Ok(c) if c == *a && format!("{:?}", c) == format!("{:?}", a) => {}
+            Ok(c) => return Err(fail(C16, "serde", false, "roundtrip-other-entry-point", "-", "copy-differs",
+                format!("round trip through {how} differs: original {:?}, copy {:?}", a, c))),
+            Err(e) => return Err(fail(C16, "serde", false, "roundtrip-other-entry-point", "-", "deserialize-failed",
+                format!("round trip through {how} failed: {e}; text: {js}"))),
+        }
     }
     // second format: the token stream (non-self-describing, sequence-based)
     match crate::tokens::roundtrip(a) {
@@ -1275,6 +1337,14 @@ pub fn judge_state(
     }
     if t & C16 != 0 {
         out.extend(c16(s, &mut ctr.lockstep, profile, n_max, a_max));
+    }
+    #[cfg(feature = "it-deser")]
+    if t & C17 != 0 {
+        // a build with `deser` must hold the same arena after a round trip as every build holds without one
+        if let Ok(Err(mut f)) = guarded(|| c16_roundtrip(s)) {
+            f.props |= C17;
+            out.push(f);
+        }
     }
     // c17_par is evaluated by the explorer on its main thread: calling into another rayon pool
     // from a worker of this pool makes the worker run other tasks while it waits (unbounded nesting)
